@@ -290,7 +290,12 @@ class _ReusablePoolExecutor(ProcessPoolExecutor):
     def _setup_queues(self, job_reducers, result_reducers):
         # As this executor can be resized, use a large queue size to avoid
         # underestimating capacity and introducing overhead
-        queue_size = 2 * cpu_count() + EXTRA_QUEUED_CALLS
+        # The queue must also be able to hold at least one task per worker,
+        # otherwise some workers stay idle until the executor manager thread is
+        # woken up again by a result (max_workers larger than 2 * cpu_count()).
+        queue_size = (
+            2 * max(cpu_count(), self._max_workers) + EXTRA_QUEUED_CALLS
+        )
         super()._setup_queues(
             job_reducers, result_reducers, queue_size=queue_size
         )
